@@ -27,26 +27,31 @@ theorem encRaw_mpUnreach (f : Fam) (nb : Bytes) :
   have hl : (be16 f.afi ++ [f.safi] ++ nb).length = 3 + nb.length := by simp; omega
   simp only [encRaw, mpUnreachRaw, lenField, hasExt_144, if_true, hl]
 
-/-- an IPv6-sized next hop (the IPv4-in-MP padding defect is excluded) -/
-def NhMp (nh : Nh) : Prop :=
+/-- a next hop that `mp_reach_encode` writes as is for family `f`: IPv6-sized, or an IPv4 address for a family
+    whose next hop is not padded (multicast; the IPv4-in-MP padding defect F4d is excluded) -/
+def NhMp (f : Fam) (nh : Nh) : Prop :=
   match nh with
-  | .v4 _ => False
+  | .v4 a => a.length = 4 ∧ nhAsIs f = true
   | .v6 a => a.length = 16
   | .v6ll g l => g.length = 16 ∧ l.length = 16 ∧ allOf l 0 = false
 
-theorem nhMp_bytes (nh : Nh) (h : NhMp nh) :
-    (nh.bytes.length = 16 ∨ nh.bytes.length = 32) ∧ nhFromBytes nh.bytes = some nh := by
+theorem nhMp_bytes (f : Fam) (nh : Nh) (h : NhMp f nh) :
+    (nh.bytes.length = 4 ∨ nh.bytes.length = 16 ∨ nh.bytes.length = 32) ∧ nhFromBytes nh.bytes = some nh ∧
+      ¬ (nh.bytes.length < 16 ∧ (!nhAsIs f) = true) := by
   cases nh with
-  | v4 a => exact absurd h (by simp [NhMp])
+  | v4 a =>
+      obtain ⟨ha, has⟩ := h
+      simp [Nh.bytes, nhFromBytes, ha, has]
   | v6 a =>
       simp only [NhMp] at h
       simp [Nh.bytes, nhFromBytes, h]
   | v6ll g l =>
       obtain ⟨hg, hl, hz⟩ := h
-      constructor
-      · right; simp [Nh.bytes, hg, hl]
+      refine ⟨?_, ?_, ?_⟩
+      · right; right; simp [Nh.bytes, hg, hl]
       · simp only [Nh.bytes, nhFromBytes, List.length_append, hg, hl]
         simp [List.drop_left' hg, List.take_left' hg, hz]
+      · simp [Nh.bytes, hg, hl]
 
 /-- the model families use the plain next-hop length form -/
 theorem nhPart_ip (f : Fam) (v6 : Bool) (hf : isIpFam f = some v6) :
@@ -63,7 +68,7 @@ theorem nhPart_ip (f : Fam) (v6 : Bool) (hf : isIpFam f = some v6) :
 
 theorem mpReachEncode_ip (p : Profile) (c : Codec) (cur : Nat) (f : Fam) (v6 : Bool) (es : List Entry) (nh : Nh)
     (n : Nat) (nb : Bytes)
-    (hf : isIpFam f = some v6) (hnh : NhMp nh) (henc : EncOk es)
+    (hf : isIpFam f = some v6) (hnh : NhMp f nh) (henc : EncOk es)
     (hn : n = fitN c.maxLen 0 (c.addpathTx f) (cur + 4 + (5 + nh.bytes.length)) es)
     (hnb : nb = (es.take n).flatMap (encE (c.addpathTx f)))
     (hpos : es ≠ [] → n ≠ 0)
@@ -71,11 +76,9 @@ theorem mpReachEncode_ip (p : Profile) (c : Codec) (cur : Nat) (f : Fam) (v6 : B
     mpReachEncode p c cur f es (some nh) =
       .ok (encRaw (mpReachRaw f nh.bytes nb), (encRaw (mpReachRaw f nh.bytes nb)).length, n) := by
   obtain ⟨hfs, hvpn⟩ := nhPart_ip f v6 hf
-  obtain ⟨hlen, _⟩ := nhMp_bytes nh hnh
-  have hl16 : ¬ (nh.bytes.length < 16 ∧ (!nhAsIs f) = true) := by
-    intro ⟨h, _⟩; rcases hlen with h' | h' <;> omega
+  obtain ⟨hlen, _, hl16⟩ := nhMp_bytes f nh hnh
   have hmod : nh.bytes.length % 256 = nh.bytes.length := by
-    rcases hlen with h' | h' <;> omega
+    rcases hlen with h' | h' | h' <;> omega
   unfold mpReachEncode
   simp only [hfs, hvpn, Bool.false_eq_true, if_false, hl16, hmod, Out.bind_ok, Out.pure_eq]
   have hhead : (be16 f.afi ++ [f.safi] ++ ([nh.bytes.length] ++ nh.bytes) ++ [0]).length = 5 + nh.bytes.length := by
@@ -99,7 +102,7 @@ theorem mpReachEncode_ip (p : Profile) (c : Codec) (cur : Nat) (f : Fam) (v6 : B
 theorem doEncode_reach_mp (p : Profile) (c : Codec) (f : Fam) (v6 : Bool) (attrs : List Attr) (es0 es : List Entry)
     (nh : Nh) (ab : Bytes) (n : Nat) (nb : Bytes)
     (hmp : ¬ (f = Fam.ipv4 ∧ (!c.extNh) = true))
-    (hf : isIpFam f = some v6) (hnh : NhMp nh) (henc : EncOk es)
+    (hf : isIpFam f = some v6) (hnh : NhMp f nh) (henc : EncOk es)
     (hattrs : encodeAttrs p c.twoByte attrs 0 = .ok (ab, ab.length))
     (hn : n = fitN c.maxLen 0 (c.addpathTx f) (23 + ab.length + 4 + (5 + nh.bytes.length)) es)
     (hnb : nb = (es.take n).flatMap (encE (c.addpathTx f)))
@@ -224,13 +227,13 @@ theorem attrStep_mpReach (tb : Bool) (st : ASt) (f : Fam) (nhb nb : Bytes) (h : 
 theorem parseUpdate_reach_mp (od : OpaqueDec) (peer : Codec) (f : Fam) (v6 : Bool) (ab : Bytes) (fin : List Attr)
     (P : AttrPart peer.twoByte ab fin) (nh : Nh) (es : List Entry) (rx : Bool)
     (hrx : rxOf peer f = some rx) (hf : isIpFam f = some v6) (hfa : f.afi < 65536) (hfs : f.safi < 256)
-    (hnh : NhMp nh) (hne : es ≠ []) (hes : ∀ e ∈ es, IpEntryOk v6 e)
+    (hnh : NhMp f nh) (hne : es ≠ []) (hes : ∀ e ∈ es, IpEntryOk v6 e)
     (hsz : ab.length + (encRaw (mpReachRaw f nh.bytes (es.flatMap (encE rx)))).length < 65536) :
     parseUpdate od peer (frame 2 ([0, 0] ++
         be16 (ab.length + (encRaw (mpReachRaw f nh.bytes (es.flatMap (encE rx)))).length) ++
         (ab ++ encRaw (mpReachRaw f nh.bytes (es.flatMap (encE rx)))))) =
       .msg (.upd none (some (f, some nh, es.map (decE v6 rx))) none none fin []) := by
-  obtain ⟨hnl, hnfb⟩ := nhMp_bytes nh hnh
+  obtain ⟨hnl, hnfb, _⟩ := nhMp_bytes f nh hnh
   obtain ⟨pt2, ps, pn, pnh, pnb, plen⟩ := mpReachVal_parts f nh.bytes (es.flatMap (encE rx))
   have hmpok : RawOk (mpReachRaw f nh.bytes (es.flatMap (encE rx))) := by
     refine ⟨?_, fun h => ?_⟩
@@ -277,11 +280,8 @@ theorem parseUpdate_reach_mp (od : OpaqueDec) (peer : Codec) (f : Fam) (v6 : Boo
   simp only [hfeq, hrx]
   have hb6 : ¬ (mpReachVal f nh.bytes (es.flatMap (encE rx))).length < 5 + nh.bytes.length := by omega
   simp only [hb6, if_false, pnh, pnb]
-  have hnz : ¬ nh.bytes.length = 0 := by rcases hnl with h | h <;> omega
-  have h416 : nh.bytes.length = 4 ∨ nh.bytes.length = 16 ∨ nh.bytes.length = 32 := by
-    rcases hnl with h | h
-    · exact Or.inr (Or.inl h)
-    · exact Or.inr (Or.inr h)
+  have hnz : ¬ nh.bytes.length = 0 := by rcases hnl with h | h | h <;> omega
+  have h416 : nh.bytes.length = 4 ∨ nh.bytes.length = 16 ∨ nh.bytes.length = 32 := hnl
   simp only [hnz, if_false, h416, if_true, hnfb]
   rw [nlriList_ip od f v6 rx true es hf hes]
   have hmapne : (es.map (decE v6 rx)).isEmpty = false := by
